@@ -268,10 +268,21 @@ def r3(ctx, facts):
     if not rc:
         raise AnchorLost("compute: get_rack_count is not consulted")
     ranges = [c for c in cb.calls_to("BTreeSet::<T, A>::range")]
-    if len(ranges) != 2:
-        raise AnchorLost("compute: expected two BTreeSet::range calls (<= rack count, > rack count), found %d" % len(ranges))
+    splits = [c for c in cb.calls_to("BTreeSet::<T, A>::split_off")]
+    if not ranges and len(splits) == 1:
+        # one owned split at rack_count + 1: the left part holds the RFs <= rack count, the right part the RFs above it
+        c = splits[0]
+        seen, cs, bins = field_slice(cb, c.args[1])
+        from_rc = any((x.name or "").endswith("get_rack_count") for x in cs)
+        adds = [rv for rv in bins if rv[1] in ("Add", "AddWithOverflow", "AddUnchecked")]
+        one = len(adds) == 1 and adds[0][3][0] == "k" and str(adds[0][3][3]) == "1" and len(bins) == 1
+        r.instance("compressed-range-ends-at-rack-count", from_rc and one, "split_off must cut the datacenter's RFs at rack_count + 1 (arithmetic: %s)" % [x[1] for x in bins], c.span)
+        r.instance("own-rings-start-above-rack-count", from_rc and one, "split_off must cut the datacenter's RFs at rack_count + 1 (arithmetic: %s)" % [x[1] for x in bins], c.span)
+        ranges = None
+    elif len(ranges) != 2:
+        raise AnchorLost("compute: expected two BTreeSet::range calls (<= rack count, > rack count) or one split_off, found %d / %d" % (len(ranges), len(splits)))
     n_ok = 0
-    for c in ranges:
+    for c in (ranges or []):
         seen, cs, bins = field_slice(cb, c.args[1])
         locs = {l for l, _ in seen}
         aggs = [st for bb in cb.live_blocks for st in cb.stmts(bb) if st[0] == "A" and st[1][0] in locs and st[2][0] == "agg" and st[2][1][0] == "adt" and st[2][1][1].startswith("core::ops::range::")]
@@ -525,24 +536,32 @@ def r5(ctx, facts):
         raise AnchorLost("ReplicaSetIterator::next: the lookup of the next datacenter (locator.datacenters.get(..)) was not found")
     rec = [c for c in nb.calls_to("Iterator>::next", "ReplicaSetIterator::next", "Iterator::next") if c.args and "ReplicaSetIterator" in nb.local_ty(c.args[0][1][0]) ]
     for g in gets:
-        # from the Some edge of the lookup, no None exit may be feasibly reachable without re-entering the walk (recursion) or the lookup itself
-        some_succ = None
-        for bb in sorted(nb.live_blocks):
-            t = nb.term(bb)
-            if t[0] == "switch":
-                pass
-        removed = [c.bb for c in rec]
-        reach = dj.feasible_reach(g.bb, removed_nodes=removed, with_states=True)
-        bad = None
-        for bb, j, st, v in _some_sites(nb):
-            if v != "None" or bb not in reach:
+        # from the Some edge of the lookup, no None exit may be feasibly reachable without re-entering the walk: the recursion
+        # `self.next()`, or - in the loop form - the lookup itself (asking for the datacenter after this one)
+        removed = [c.bb for c in rec] + [g.bb]
+        key_g = ("disc", (g.dest[0], ()))
+        some_edges = []
+        for u in sorted(nb.live_blocks):
+            if nb.term(u)[0] != "switch":
                 continue
-            for stt in reach[bb]:
-                if in_set(stt.get(("disc", (g.dest[0], ()))), {1}):
+            before = dj.states_before_stmt(u, len(nb.stmts(u)))
+            for v in nb.succ[u]:
+                sts = dj.states_on_edge(u, v)
+                if sts and all(in_set(st.get(key_g), {1}) for st in sts) and not (before and all(in_set(st.get(key_g), {1}) for st in before)):
+                    some_edges.append((u, v))
+        bad = None
+        for (u, v) in some_edges:
+            reach = dj.feasible_reach_edge(u, v, removed_nodes=removed)
+            for bb, j, st, vv in _some_sites(nb):
+                if vv == "None" and bb in reach:
                     bad = st
-        r.instance("empty-datacenter-does-not-end-iteration", bad is None and bool(rec),
+            # `?` on an Option leaves through from_residual with a None
+            for bb2, c2 in nb.calls():
+                if bb2 in reach and (c2.decl or "").endswith("FromResidual::from_residual") and c2.dest[0] == 0:
+                    bad = bad or ("call", c2)
+        r.instance("empty-datacenter-does-not-end-iteration", bool(some_edges) and bad is None,
                    "after moving on to the next datacenter the iterator may answer None without looking at the datacenters after it: a datacenter without replicas (RF 0, or absent from the strategy) cuts the replica set short",
-                   nb.stmt_span(bad) if bad else g.span)
+                   (nb.stmt_span(bad) if bad and bad[0] != "call" else (bad[1].span if bad else g.span)))
     # same per-DC request in every chained-NTS view
     n_req = 0
     for b in (targets[1], targets[2], facts.one(r"<%sReplicaSet<'a> as core::iter::traits::collect::IntoIterator>::into_iter$" % M)):
